@@ -99,6 +99,7 @@ def run(repo: Repo, rep: Report) -> None:
            "no graph copy reachable from remove()" if not iadd else "remove() can copy a foreign graph's triples into the dataset: " + " -> ".join(eff.witness_chain(full, iadd[0])[-2:]), node=fi.node)
 
     context_filter_rule(repo, rep)
+    write_path_rules(repo, rep)
 
     # ------------------------------------------------------------------ (c)
     rep.rule("C02.c-context-key", "Memory's context key is computed from both the identifier's class and its value", floor=1)
@@ -157,6 +158,52 @@ def run(repo: Repo, rep: Report) -> None:
     ok = bool(un) and "context is None" in norm(un[0].test) and "len(" in norm(un[0].test)
     rep.ob("C02.e-remove-scoped-to-context", mem, "Memory.remove", "default-context entry removed only when unscoped or last", ok,
            "" if ok else "the union/default entry is un-linked under a different condition than `None in ctxs and (context is None or len(ctxs) == 1)`", node=f)
+
+
+def write_path_rules(repo: Repo, rep: Report) -> None:
+    gm = repo.mod("rdflib.graph")
+    rep.rule("C02.g-write-paths-keep-their-graph",
+             "ConjunctiveGraph.add/remove hand the store exactly the context that _spoc resolved from the quad (it is never re-assigned, in particular "
+             "never widened to None = all graphs); addN re-homes every quad's context through self._graph(c) unconditionally; __contains__ answers "
+             "through self.triples(...) only, so membership and triples() cannot disagree", floor=4)
+    for q, meth in (("ConjunctiveGraph.add", "add"), ("ConjunctiveGraph.remove", "remove")):
+        f = gm.func(q)
+        sp = [n for n in own_nodes(f) if isinstance(n, ast.Assign) and isinstance(n.value, ast.Call) and norm(n.value.func) == "self._spoc" and isinstance(n.targets[0], ast.Tuple)]
+        calls = [c for c in own_nodes(f) if isinstance(c, ast.Call) and norm(c.func) == "self.store." + meth]
+        ok = len(sp) == 1 and len(calls) == 1
+        why = ""
+        if ok:
+            cvar = norm(sp[0].targets[0].elts[3])
+            ctxarg = [k.value for k in calls[0].keywords if k.arg == "context"] + list(calls[0].args[1:2])
+            ok = bool(ctxarg) and norm(ctxarg[0]) == cvar
+            reassigned = [n for n in own_nodes(f) if n is not sp[0] and isinstance(n, (ast.Assign, ast.AugAssign, ast.AnnAssign))
+                          and any(norm(t) == cvar for t in (n.targets if isinstance(n, ast.Assign) else [n.target]))]
+            if reassigned:
+                ok = False
+                why = "the context %s is re-assigned (%s) between _spoc and the store call" % (cvar, norm(reassigned[0])[:60])
+            elif not ok:
+                why = "store.%s does not receive the context resolved by _spoc" % meth
+        else:
+            why = "unmodelled shape (expected one _spoc unpack and one store.%s call)" % meth
+        rep.ob("C02.g-write-paths-keep-their-graph", gm, q, "s, p, o, c = self._spoc(...); self.store.%s((s, p, o), context=c)" % meth, ok,
+               "the given graph is the graph written" if ok else why + ": a quad aimed at one graph reaches a different set of graphs", node=f)
+    f = gm.func("ConjunctiveGraph.addN")
+    ok = False
+    for c in own_nodes(f):
+        if isinstance(c, ast.Call) and norm(c.func) == "self.store.addN" and c.args and isinstance(c.args[0], ast.GeneratorExp):
+            elt = c.args[0].elt
+            tgt = c.args[0].generators[0].target
+            if isinstance(elt, ast.Tuple) and len(elt.elts) == 4 and isinstance(tgt, ast.Tuple) and len(tgt.elts) == 4:
+                cvar = norm(tgt.elts[3])
+                ok = norm(elt.elts[3]) == "self._graph(%s)" % cvar
+    rep.ob("C02.g-write-paths-keep-their-graph", gm, "ConjunctiveGraph.addN", "(s, p, o, self._graph(c)) for s, p, o, c in quads", ok,
+           "every context is re-homed onto this dataset's store" if ok else "addN does not pass every quad's context through self._graph(c): a Graph object of another store can be registered as a context of this dataset", node=f)
+    f = gm.func("ConjunctiveGraph.__contains__")
+    direct = [c for c in own_nodes(f) if isinstance(c, ast.Call) and norm(c.func).startswith("self.store.")]
+    via = [c for c in own_nodes(f) if isinstance(c, ast.Call) and norm(c.func) == "self.triples"]
+    ok = bool(via) and not direct
+    rep.ob("C02.g-write-paths-keep-their-graph", gm, "ConjunctiveGraph.__contains__", "membership := any(self.triples(...))", ok,
+           "" if ok else "__contains__ probes the store directly (%s), bypassing the default/union resolution of triples(): `t in ds` and ds.triples(t) can disagree" % (norm(direct[0])[:60] if direct else "no self.triples call"), node=f)
 
 
 def context_filter_rule(repo: Repo, rep: Report) -> None:
